@@ -10,7 +10,7 @@ import time
 
 from .. import common, gen, lin, probe
 from ..observe import ident, same
-from ..sched import Recorder, Sched
+from ..sched import Recorder, Sched, store_gates
 
 PROP = 'C12'
 LEVEL = 'exploration'
@@ -477,6 +477,8 @@ def atomicity_schedule(dc, sc, res, rng, label):
         return ix
     sch = Sched(rng, clock, strategy=rng.choice(['random', 'preempt', 'random', 'ops']),
                 preempt_points={rng.randrange(0, 150) for _ in range(3)})
+    if store_gates(sch, rng, dc):
+        res.count('schedules_with_attribute_store_gates')
     rec = Recorder(sch)
 
     def client(ci):
